@@ -3,7 +3,7 @@
    that branch is exact, and denotes the same matrix as the uniform form `qsm_mul_u` that carries the general theorem. *)
 From mathcomp Require Import all_ssreflect all_algebra.
 From TinyGP Require Import Base.Ops Base.LMat Model.QSMCore Model.QSMOps
-  Theory.MxRefine Theory.QSMDen Theory.QSMMatmul Theory.QSMArith Theory.QSMMul.
+  Theory.MxRefine Theory.QSMDen Theory.QSMMatmul Theory.QSMArith Theory.QSMMulAbs Theory.QSMMul.
 Set Implicit Arguments. Unset Strict Implicit. Unset Printing Implicit Defensive.
 Import GRing.Theory.
 Local Open Scope ring_scope.
@@ -35,5 +35,34 @@ Theorem mul_diag_diag_agrees n (x y : vec F) C C' :
 Proof.
 move=> H H'; rewrite (mul_diag_diag_sound H).
 by rewrite (@mul_sound _ sq lt n _ _ _ _ _ H') //= eqxx.
+Qed.
+Lemma den_sl_at_tm n m m' (p q : mat F) (a : ten F) : m = m' ->
+  den_sl_at n (MkTri n m p q a) = den_sl_at n (MkTri n m' p q a).
+Proof. by move=> ->. Qed.
+Lemma mul_diag_lower_pos n (x d : vec F) (l : tri F) C : (0 < n)%N ->
+  qsm_mul fops (Diag n x) (Lower d l) = Some C -> den n C = den n (Diag n x) *m den n (Lower d l).
+Proof.
+move=> n0; rewrite /qsm_mul /deconstruct; cbv beta iota.
+set rows := mkseq _ n.
+have E k : (k < n)%N -> nth (MkMulRow None [::] [::] None [::] [::] None) rows k = mul_row fops (Some x) None None (Some d) (Some l) None None None k.
+  by move=> kn; rewrite nth_mkseq.
+rewrite (E 0%N n0) /= /construct /= => -[<-] /=.
+rewrite mulmxDr; congr (_ + _).
+- rewrite -den_diag_mul /den_diag; congr diag_mx; apply/matrixP => i j.
+  by rewrite !mxE (nth_map (MkMulRow None [::] [::] None [::] [::] None)) ?size_mkseq // E //= nth_vmk.
+- rewrite (@den_sl_at_tm _ _ (tm l)); last by rewrite size_cat size_mkseq addn0.
+  rewrite den_diag_Dm /den_sl_at mulDL; apply: denSL_ext => k kn.
+  + rewrite /Pk /mrow /= (nth_map (MkMulRow None [::] [::] None [::] [::] None)) ?size_mkseq // E //= /cat2 /= cats0.
+    by rewrite rv_of_vscale /vget.
+  + by rewrite /Qk /mrow /= (nth_map (MkMulRow None [::] [::] None [::] [::] None)) ?size_mkseq // E //= /cat2 /= cats0.
+  + by rewrite /Ak /tget /= (nth_map (MkMulRow None [::] [::] None [::] [::] None)) ?size_mkseq // E.
+Qed.
+
+(* diagonal @ lower-triangular (e.g. a scaling applied to a Cholesky factor): the literal branch — no scan, p rows scaled — is exact *)
+Theorem mul_diag_lower_sound n (x d : vec F) (l : tri F) C :
+  qsm_mul fops (Diag n x) (Lower d l) = Some C -> den n C = den n (Diag n x) *m den n (Lower d l).
+Proof.
+case: (posnP n) => [->|n0]; last exact: mul_diag_lower_pos.
+by move=> _; apply/matrixP => -[].
 Qed.
 End MulDiag.
